@@ -134,9 +134,11 @@ Proof.
   repeat split; vm_compute; reflexivity.
 Qed.
 
-(** ** (3) Currency.  Histories WITHOUT replayed headers ([plain_op]: messages, entrances, reads; no
-    crash / restart, no [OpReplay]).  With replayed headers the statements are false of the model
-    (and of the Go code), see the [_refuted] theorems below - hence [_partial]. *)
+(** ** (3) Currency.  The gossip half and the kernel facts "version bumped / view marked on every
+    change" hold for histories WITHOUT replayed headers ([plain_op]: messages, entrances, reads; no
+    crash / restart, no [OpReplay]) - [_partial]; with a replayed header they are false of the model
+    (and of the Go code: handleReplayedHeader), see the [_refuted] theorems.  The state-machine half
+    (a statement about versions) holds for all histories without crash / restart. *)
 
 (** every change of a kernel view comes with a later (height, round) or a version bump ... *)
 Theorem C11_kernel_version_bumped_on_change_partial : forall s o s' res,
